@@ -26,9 +26,13 @@ ScalarOk(e) == LET x == ElemOp(e.op, e.a, e.b) IN
 
 AlgOk(e) == e.lhs = e.rhs /\ e.lhs.t \in {"num", "bool", "err"}
 
+\* the IEEE-754 result of the host for one arithmetic operator on two doubles (bit patterns as text), the same in the scalar form
+\* and in every broadcast form
+IeeeOk(e) == e.scalar = e.want /\ e.list_scalar = e.want /\ e.scalar_list = e.want /\ e.list_list = e.want
 EventOk(e) == CASE e.ev = "bcast"  -> BcastOk(e)
                 [] e.ev = "scalar" -> ScalarOk(e)
                 [] e.ev = "alg"    -> AlgOk(e)
+                [] e.ev = "ieee"   -> IeeeOk(e)
                 [] OTHER -> FALSE
 
 Init == l = 1 /\ bad = <<>>
